@@ -175,6 +175,45 @@ def run(spec):
                 res.count("plotly_rows_checked")
                 if rows != sorted(exp):
                     res.add("plotly", "C19.plotly_rows.%s" % gkind, "%s %s margin %r: chart rows %s, expected %s" % (gkind, g.ID, margin, rows[:6], sorted(exp)[:6]), None)
+    # the same rows requested through the containers, with every combination of the view flags
+    def rows_of(seq, nm_states, label, margin):
+        out = []
+        for nm, stv in nm_states:
+            for (a, ln) in expect(seq, stv, margin):
+                out.append((label, fmt(init + a * unit), fmt(init + (a + ln) * unit), nm))
+        return out
+
+    for (vr, va) in ((True, False), (False, True), (False, False), (True, True)):
+        margin = 1.0
+        oc = D.call(lambda: p.organization.create_data_for_gantt_plotly(init, unit, finish_margin=margin, view_ready=vr, view_absence=va))
+        if oc.ok:
+            rows = sorted((r["Task"], r["Start"], r["Finish"], r["State"]) for r in oc.value)
+            exp = []
+            for g, members in [(g, g.worker_list) for g in ix.teams] + [(g, g.facility_list) for g in ix.wps]:
+                for r_ in members:
+                    seq = [int(s) for s in r_.state_record_list]
+                    kinds = [("WORKING", D.R_WORKING)] + ([("READY", D.FREE)] if vr else []) + ([("ABSENCE", D.ABSENCE)] if va else [])
+                    exp.extend(rows_of(seq, kinds, g.name + ": " + r_.name, margin))
+            res.count("plotly_rows_checked")
+            if rows != sorted(exp):
+                res.add("plotly", "C19.plotly_rows.organization.view_ready_%s.view_absence_%s" % (vr, va),
+                        "organization.create_data_for_gantt_plotly(view_ready=%s, view_absence=%s): %d rows, expected %d from the logs; first difference %s"
+                        % (vr, va, len(rows), len(exp), next((x for x in sorted(set(rows) ^ set(exp))), None)), None)
+        if not va:
+            for owner, objs, typ in ((p.workflow, ix.tasks, "Task"), (p.product, ix.comps, "Component")):
+                oc = D.call(lambda: owner.create_data_for_gantt_plotly(init, unit, finish_margin=margin, view_ready=vr))
+                if oc.ok:
+                    rows = sorted((r["Task"], r["Start"], r["Finish"], r["State"]) for r in oc.value)
+                    exp = []
+                    for o_ in objs:
+                        seq = [int(s) for s in o_.state_record_list]
+                        kinds = [("WORKING", D.WORKING)] + ([("READY", D.READY)] if vr else [])
+                        exp.extend(rows_of(seq, kinds, o_.name, margin))
+                    res.count("plotly_rows_checked")
+                    if rows != sorted(exp):
+                        res.add("plotly", "C19.plotly_rows.%s_container.view_ready_%s" % (typ.lower(), vr),
+                                "%s container create_data_for_gantt_plotly(view_ready=%s): rows differ from the logs; first difference %s"
+                                % (typ, vr, next((x for x in sorted(set(rows) ^ set(exp))), None)), None)
     # extract_* queries
     n = len(p.cost_list)
     for times in spec.get("times", []):
